@@ -11,7 +11,7 @@ EXTENDS TLC, TLCExt, Json, IOUtils, Naturals, Integers, Sequences, FiniteSets
 
 TraceLog == ndJsonDeserialize(IOEnv.TRACE_FILE)
 
-KitInit == TLCSet(1, 0) /\ TLCSet(2, 0)
+KitInit == TLCSet(1, 0) /\ TLCSet(2, 0) /\ TLCSet(3, 0)     \* 3: number of clauses evaluated
 
 RECURSIVE JoinNames(_, _)
 JoinNames(bad, k) ==
@@ -20,14 +20,15 @@ JoinNames(bad, k) ==
 \* clauses: a sequence of <<name, BOOLEAN>>; the verdict line is a single string (never wrapped)
 Verdict(id, clauses) ==
   LET bad == SelectSeq(clauses, LAMBDA c : ~c[2]) IN
-  IF Len(bad) = 0
+  /\ TLCSet(3, TLCGet(3) + Len(clauses))
+  /\ IF Len(bad) = 0
     THEN TLCSet(1, TLCGet(1) + 1)
     ELSE /\ PrintT("REJECT|" \o ToString(id) \o "|" \o JoinNames(bad, 1))
          /\ TLCSet(2, TLCGet(2) + 1)
 
 KitPost ==
   PrintT("SUMMARY|" \o ToString(TLCGet(1)) \o "|" \o ToString(TLCGet(2)) \o "|" \o ToString(Len(TraceLog))
-         \o "|" \o ToString(TLCGet("stats").diameter))
+         \o "|" \o ToString(TLCGet("stats").diameter) \o "|" \o ToString(TLCGet(3)))
 
 \* a driver records obs = [crash |-> "...", where |-> "..."] when the code under test raised an
 \* exception where a result was expected
